@@ -133,8 +133,8 @@ instance (l : Limits) (x : Val) : Decidable (Within l x) :=
 structure LRec where
   write : Option Val               -- `some x`: a write of the base parameter with value `x`
   echo : Bool                      -- the driver took the requested value over unchanged
-  setLimits : Option (Val × Val)   -- `some (a, b)`: the pair `(a, b)` was written / assigned to `<p>_limits`
-  ok : Bool                        -- the operation was accepted (for a driver-side assignment: stored)
+  setLimits : Option (Val × Val)   -- `some (a, b)`: a write of `<p>_limits` with the pair `(a, b)`
+  ok : Bool                        -- the operation was accepted
   before : Limits                  -- the limits current when the operation was issued
   after : Limits
   value : Val                      -- base parameter after the operation
@@ -142,14 +142,12 @@ structure LRec where
 
 def LimitsOk (r : LRec) : Prop :=
   (∀ x, r.write = some x → r.ok = true → Within r.before x ∧ (r.echo = true → r.value = x ∧ Within r.after r.value)) ∧
-  (∀ ab, r.setLimits = some ab → ab.2 < ab.1 → r.ok = false ∧ r.after.limits = r.before.limits) ∧
-  (∀ ab, r.after.limits = some ab → ab.1 ≤ ab.2)
+  (∀ ab, r.setLimits = some ab → ab.2 < ab.1 → r.ok = false ∧ r.after.limits = r.before.limits)
 
 instance (r : LRec) : Decidable (LimitsOk r) :=
   inferInstanceAs (Decidable (
     (∀ x, r.write = some x → r.ok = true → Within r.before x ∧ (r.echo = true → r.value = x ∧ Within r.after r.value)) ∧
-    (∀ ab, r.setLimits = some ab → ab.2 < ab.1 → r.ok = false ∧ r.after.limits = r.before.limits) ∧
-    (∀ ab, r.after.limits = some ab → ab.1 ≤ ab.2)))
+    (∀ ab, r.setLimits = some ab → ab.2 < ab.1 → r.ok = false ∧ r.after.limits = r.before.limits)))
 
 def limitsOkB (r : LRec) : Bool := decide (LimitsOk r)
 
